@@ -1332,6 +1332,7 @@ package engine
 //@   ensures err == nil && target != nil ==> !result
 //@   -- errors.Is: "an error is considered to match a target if it is equal to that target" (stated for io.EOF, a comparable value)
 //@   ensures err == target && target == io.EOF ==> result
+//@   ensures[an-errors.New-value-has-no-Unwrap-and-no-Is-method-so-it-matches-only-itself] (err == errWrongIOMode || err == errWrongStreamType) ==> result == (err == target)
 
 //@ axiom[io.EOF-is-an-error-value] io.EOF != nil
 
@@ -1470,6 +1471,8 @@ package engine
 //@   bind t, perr = (*Parser).Term#1
 //@   bind uerr = (*Stream).UnreadRune#1
 //@   at-call NewParser requires[parses-the-stream-asked-for] a0 == vm && a1 is *Stream && (a1 as *Stream) == s
+//@   bind np = NewParser#1
+//@   at-call (*Parser).Term requires[the-parser-built-on-that-stream-does-the-reading] called(np) && a0 == np
 //@   at-call (*Stream).UnreadRune requires[the-look-ahead-goes-back-to-that-stream] a0 == s && called(t)
 //@   onk[the-look-ahead-was-returned-first] called(uerr)
 //@   at-call Unify requires[end-of-file-at-the-end] perr == io.EOF ==> a2 is Atom && (a2 as Atom) == atomEndOfFile
@@ -1837,20 +1840,25 @@ package engine
 //@   requires b != nil && 0 <= b.end && b.end < 4 && 0 <= b.start && b.start < 4
 //@   modifies b.buf, b.end
 //@   ensures 0 <= b.end && b.end < 4
+//@   ensures[the-rune-goes-into-the-end-slot-which-advances-by-one] b.buf[old(b.end)] == r && b.end == (old(b.end) + 1) % 4
+//@   ensures[the-other-slots-keep-their-runes] forall i int :: 0 <= i && i < 4 && i != old(b.end) ==> b.buf[i] == old(b.buf[i])
 //@ func (*runeRingBuffer).get
 //@   property C05
 //@   requires b != nil && 0 <= b.end && b.end < 4 && 0 <= b.start && b.start < 4
 //@   modifies b.start
 //@   ensures 0 <= b.start && b.start < 4
+//@   ensures[delivers-the-rune-in-the-start-slot-which-advances-by-one] result == old(b.buf[b.start]) && b.start == (old(b.start) + 1) % 4
 //@ func (*runeRingBuffer).empty
 //@   property C05
 //@   requires b != nil
 //@   modifies nothing
+//@   ensures[no-rune-is-pending-exactly-when-start-has-caught-up-with-end] result == (b.start == b.end)
 //@ func (*runeRingBuffer).backup
 //@   property C05
 //@   requires b != nil && 0 <= b.start && b.start < 4
 //@   modifies b.start
 //@   ensures 0 <= b.start && b.start < 4
+//@   ensures[the-start-slot-moves-back-by-one] b.start == (old(b.start) + 3) % 4
 //@ func (*tokenRingBuffer).put
 //@   property C05
 //@   requires b != nil && 0 <= b.end && b.end < 4 && 0 <= b.start && b.start < 4
@@ -2400,15 +2408,32 @@ package engine
 //@   ensures[a-load-without-error-reports-none] cerr == nil && called(ferr) && ferr == nil && !(called(gerr) && (gerr != nil || !gok)) ==> result == nil
 
 //@ func WriteTerm
-//@   property C18
+//@   property C18 C19
 //@   assumed-post
-//@   checks only at-store at-store-missing at-call at-call-missing inv-entry inv-keep
+//@   checks only at-store at-store-missing at-call at-call-missing inv-entry inv-keep onk nok
 //@   nosafety
 //@   modifies heap
 //@   ensures result != nil
 //@   at-store WriteOptions.ops requires[terms-are-written-under-the-vm-s-own-operator-table] v == vm.operators
 //@   loop 1 invariant[no-write-option-replaces-the-operator-table] opts.ops == vm.operators
 //@   at-call Term.WriteTerm requires[the-term-is-written-with-the-options-that-carry-the-vm-s-own-operator-table] a2 == &opts && a2.ops == vm.operators
+//@   let wt = resolve(env, t)
+//@   bind ws, wserr = stream#1
+//@   bind tw, twerr = (*Stream).textWriter#1
+//@   bind wterr = engine.Term.WriteTerm#1
+//@   at-call stream#1 requires[the-stream-asked-for-is-resolved] a0 == vm && a1 == streamOrAlias && a2 == env
+//@   at-call (*Stream).textWriter requires[the-text-writer-of-the-stream-asked-for] a0 == ws && wserr == nil
+//@   at-call Term.WriteTerm requires[the-term-given-is-written-once-to-the-writer-of-the-stream-asked-for-in-the-caller-s-environment] a0 == wt && a1 is textWriter && (a1 as textWriter).stream == ws && twerr == nil && a3 == env && !ghost(sunk)
+//@   onk[the-term-was-written-without-error-before-the-continuation-runs] called(wterr) && wterr == nil && kenv == env
+//@   nok[an-unknown-stream-is-an-error-and-nothing-is-written] wserr != nil ==> !called(wterr) && result.err == wserr
+//@   nok[nothing-is-written-to-an-input-or-binary-stream] called(twerr) && twerr != nil ==> !called(wterr)
+//@   nok[a-write-error-is-reported] called(wterr) ==> wterr != nil && result.err == wterr
+//@   bind wpe1 = permissionError#1
+//@   bind wpe2 = permissionError#2
+//@   nok[an-input-stream-is-a-permission-error] called(twerr) && twerr == errWrongIOMode ==> called(wpe1) && result.err == wpe1
+//@   nok[a-binary-stream-is-a-permission-error] called(twerr) && twerr == errWrongStreamType ==> called(wpe2) && result.err == wpe2
+//@   at-call permissionError#1 requires[output-to-an-input-stream] a0 == operationOutput && a1 == permissionTypeStream && a2 == streamOrAlias && a3 == env && called(twerr) && twerr != nil
+//@   at-call permissionError#2 requires[term-output-to-a-binary-stream] a0 == operationOutput && a1 == permissionTypeBinaryStream && a2 == streamOrAlias && a3 == env && called(twerr) && twerr != nil
 
 //@ func (*clause).varOffset
 //@   property C10
@@ -2986,7 +3011,11 @@ package engine
 //@ ---------------------------------------------------------------- the lexer's table of one-character tokens (C05)
 
 //@ func (*Lexer).next
-//@   trusted
+//@   property C19
+//@   assumed-post
+//@   checks only at-call at-call-missing
+//@   nosafety
+//@   at-call (*Lexer).rawNext requires[every-rune-the-lexer-sees-comes-through-its-own-look-ahead-buffer] a0 == l
 //@   ensures result1 == nil ==> 0 <= result0 && result0 <= 1114111
 
 //@ func (*Lexer).token
